@@ -11,6 +11,7 @@
 #include <sys/wait.h>
 #include <unistd.h>
 #include "harness.h"
+#include "prelude.h"
 #include "digest.h"
 
 const char* const PROPERTY_ID = "C18";
@@ -56,6 +57,8 @@ std::vector<Child>& children() { static auto* v = new std::vector<Child>; return
 }  // namespace
 
 void property_init() {
+  // no prelude: the library under test runs in the six digest servers, not in this process
+  vf::g_prelude_enabled = false;
   signal(SIGPIPE, SIG_IGN);
   const char* dir = getenv("VERIF_BUILD_DIR");
   std::string root = dir ? dir : "/verif/.build";
